@@ -298,11 +298,17 @@ def run(tier: str) -> int:
     # which arms of the transcribed emitter were exercised: node kinds of the serialised trees
     o.extra["action_coverage"] = dict(sorted(arms.items()))
     o.exhaustive = True
+    # the repository's own test-suite as a trace source (harness/suitetrace.py)
+    import suitetrace
+    common.with_engine(o, "suite", lambda: suitetrace.extend(o, tier, PID))
     return o.finish()
 
 
 def replay(path: str) -> int:
     v = json.loads(Path(path).read_text())
+    if v.get("case", {}).get("engine") == "suite":
+        import suitetrace
+        return suitetrace.replay(path)
     c = v["case"]
     o = Outcome(PID, "quick")
     o.known = {}
